@@ -23,15 +23,18 @@ type expiryConfig struct {
 	will          *mqttp.Publish
 	expireIn      *uint32
 	willIn        uint32
+	// total is the complete session expiry interval, counted from expiringSince (expireIn is what
+	// the timer still has to wait for: start and the callback consume it)
+	total *uint32
+	// elapsed is set for a timer restored at startup: the part of its first period which has passed
+	// already
+	elapsed time.Duration
 }
 
 type expiry struct {
 	expiryConfig
 	timerLock sync.Mutex
 	timer     *time.Timer
-	// total is the session expiry interval the timer has been started with (expireIn is consumed
-	// by start and by the callback)
-	total *uint32
 	// cancelled is set by cancel: a callback that has not got hold of timerLock yet does nothing
 	cancelled bool
 	// done is set by the callback once it has reported the timer's end to the manager
@@ -74,8 +77,18 @@ func (s *expiry) start() {
 		s.expiringSince = time.Now()
 	}
 
+	period := time.Duration(timerPeriod) * time.Second
+	if s.elapsed > 0 {
+		if period > s.elapsed {
+			period -= s.elapsed
+		} else {
+			period = 0
+		}
+		s.elapsed = 0
+	}
+
 	s.timerLock.Lock()
-	s.timer = time.AfterFunc(time.Duration(timerPeriod)*time.Second, s.timerCallback)
+	s.timer = time.AfterFunc(period, s.timerCallback)
 	s.timerLock.Unlock()
 }
 
